@@ -84,7 +84,10 @@ type World struct {
 	ClosedT    time.Duration
 	CloseReturned bool
 	TaskG  []*simrt.G
+	pending []Violation // violations found by per-step hooks
 }
+
+var errStop = errors.New("stopped by a per-step oracle")
 
 var discard = slog.New(slog.NewTextHandler(io.Discard, &slog.HandlerOptions{Level: slog.LevelError + 4}))
 
